@@ -1,14 +1,228 @@
 (* C08 -- SID and target security descriptor bytes follow MS-DTYP for every SID; near-miss strings are
-   rejected with ValueError. Statements only. *)
+   rejected with ValueError. Statements only; proofs in Proofs/SecDesc*.v.
+   Model/SecDesc.v models sid_to_bytes / ace_to_bytes / acl_to_bytes / sd_to_bytes / SIDDescriptor.get_target_sd;
+   its regex literal, range tests, widths, byte orders, header length, control bits, offset arithmetic, owner /
+   group / Everyone strings and masks are regenerated from the source (gen/K_sd.v); Spec/Dtyp.v is the independent
+   strict parser written from MS-DTYP 2.4.2.2 / 2.4.4 / 2.4.5 / 2.4.6. *)
 From V Require Import Prelude.Base Prelude.PyInt gen.K_sd gen.C_sd Model.Types Model.SecDesc Spec.Dtyp.
-From V Require Import Proofs.SecDescRegex Proofs.SecDescK.
+From V Require Import Proofs.SecDescRegex Proofs.SecDescK Proofs.SecDescStr Proofs.SecDescLayout Proofs.SecDescMain.
+
+(* ---- K: what the regenerated source fragments are ----------------------------------------------------------- *)
 
 (* the regex in sid_to_bytes is the pattern ^S-([0-9])-([0-9]+)(?:-[0-9]+){1,15}\Z the grammar theorems are about *)
-Theorem C08_regex : k_sid_regex = expected_regex.
+Theorem C08_regex : k_sid_regex =
+  [94; 83; 45; 40; 91; 48; 45; 57; 93; 41; 45; 40; 91; 48; 45; 57; 93; 43; 41; 40; 63; 58; 45; 91; 48; 45; 57; 93; 43; 41;
+   123; 49; 44; 49; 53; 125; 92; 90].
 Proof. exact regex_is_expected. Qed.
 Print Assumptions C08_regex.
 
-(* the explicit range tests of sid_to_bytes *)
+(* the explicit range tests of sid_to_bytes: authority < 2^48, every sub-authority < 2^32 *)
 Theorem C08_range_tests : (forall a, k_sid_auth_bad a = negb (a <? 2 ^ 48)) /\ (forall x, k_sid_sub_bad x = negb (x <? 2 ^ 32)).
 Proof. exact (conj auth_range_test sub_range_test). Qed.
 Print Assumptions C08_range_tests.
+
+(* split on "-", sub-authorities from index 3, authority 8 bytes big-endian (two top bytes overwritten), sub-authorities and
+   mask 4 bytes little-endian, 20-byte header, SELF_RELATIVE | SACL_PRESENT | DACL_PRESENT bits, running offsets,
+   owner = group = "S-1-5-18", ACEs (value, 3) and ("S-1-1-0", 2) *)
+Theorem C08_kernel_constants :
+  k_sid_split_sep = [45] /\ k_sid_first_sub = 3 /\
+  k_sid_auth_width = 8 /\ k_sid_auth_order = [98; 105; 103] /\
+  k_sid_sub_width = 4 /\ k_sid_sub_order = [108; 105; 116; 116; 108; 101] /\
+  k_ace_mask_width = 4 /\ k_ace_mask_order = [108; 105; 116; 116; 108; 101] /\
+  k_sd_header_len = 20 /\ k_sd_control0 = 32768 /\ k_sd_sacl_off0 = 0 /\ k_sd_dacl_off0 = 0 /\
+  k_sd_control_sacl k_sd_control0 = 32768 + 16 /\ k_sd_control_dacl k_sd_control0 = 32768 + 4 /\
+  k_sd_control_dacl (k_sd_control_sacl k_sd_control0) = 32768 + 16 + 4 /\
+  (forall o n, k_sd_off_sacl o n = o + n) /\ (forall o n, k_sd_off_dacl o n = o + n) /\ (forall o n, k_sd_off_owner o n = o + n) /\
+  k_tsd_owner = [83; 45; 49; 45; 53; 45; 49; 56] /\ k_tsd_group = [83; 45; 49; 45; 53; 45; 49; 56] /\
+  k_tsd_everyone = [83; 45; 49; 45; 49; 45; 48] /\ k_tsd_mask_target = 3 /\ k_tsd_mask_everyone = 2.
+Proof. exact kernel_constants. Qed.
+Print Assumptions C08_kernel_constants.
+
+(* the model reproduces the byte vectors the current implementation computed at regeneration time (gen/C_sd.v): the test
+   suite's 5-sub-authority SID, an ACE, a two-ACE ACL, an SD with SACL and DACL, a target SD *)
+Theorem C08_vectors :
+  sid_to_bytes str_sid5 = Ok c_sd_vec_sid /\
+  ace_to_bytes k_tsd_everyone 2 = Ok c_sd_vec_ace /\
+  (let* a1 := ace_to_bytes k_tsd_owner 1 in let* a2 := ace_to_bytes k_tsd_everyone 2 in acl_to_bytes [a1; a2]) = Ok c_sd_vec_acl /\
+  (let* a1 := ace_to_bytes k_tsd_owner 1 in let* a2 := ace_to_bytes k_tsd_everyone 2 in sd_to_bytes k_tsd_owner str_admins [a1] [a2]) = Ok c_sd_vec_sd_sacl /\
+  get_target_sd str_target = Ok c_sd_vec_target.
+Proof. exact vectors. Qed.
+Print Assumptions C08_vectors.
+
+(* ---- the entry points in terms of the structured functions ----------------------------------------------------- *)
+
+(* ProtectionDescriptor.parse(value).get_target_sd() = target_sd of the parsed SID, or the parser's exception *)
+Theorem C08_entry_points : forall str,
+  sid_to_bytes str = (let* s := sid_parse str in Ok (sid_bytes s)) /\
+  get_target_sd str = (let* s := sid_parse str in Ok (target_sd s)).
+Proof. exact (fun str => conj eq_refl (get_target_sd_spec str)). Qed.
+Print Assumptions C08_entry_points.
+
+(* ---- P ------------------------------------------------------------------------------------------------------------ *)
+
+(* For every SID with 1..15 sub-authorities, revision 0..9, authority < 2^48, sub-authorities < 2^32 (wf_sid), the independent
+   parser decodes the target SD to: SELF_RELATIVE | DACL_PRESENT, owner and group LOCAL_SYSTEM, no SACL, a DACL of revision 2
+   with exactly [ACCESS_ALLOWED mask 3 for the SID; ACCESS_ALLOWED mask 2 for Everyone]. Success of the strict parser means:
+   reserved bytes zero, AceSize / AclSize / AceCount add up exactly, every offset inside the buffer behind the header, regions
+   disjoint and covering the buffer; sd_gkdi_order: components contiguous in the order Dacl, Owner, Group. *)
+Theorem C08_layout : forall s, wf_sid s = true ->
+  parse_sd (target_sd s) = Some
+    {| sd_control := SE_SELF_RELATIVE + SE_DACL_PRESENT;
+       sd_owner := Some LOCAL_SYSTEM; sd_group := Some LOCAL_SYSTEM;
+       sd_sacl := None;
+       sd_dacl := Some {| l_rev := ACL_REVISION;
+                          l_aces := [ {| a_type := ACCESS_ALLOWED_ACE_TYPE; a_flags := 0; a_mask := 3;
+                                         a_sid := {| d_rev := sid_rev s; d_auth := sid_auth s; d_subs := sid_subs s |} |};
+                                      {| a_type := ACCESS_ALLOWED_ACE_TYPE; a_flags := 0; a_mask := 2; a_sid := EVERYONE |} ] |};
+       sd_gkdi_order := true |}.
+Proof. exact layout. Qed.
+Print Assumptions C08_layout.
+
+(* the binary SID alone: revision, count, 48-bit big-endian authority, little-endian sub-authorities, nothing left over *)
+Theorem C08_sid_layout : forall s rest, wf_sid s = true ->
+  parse_sid (sid_bytes s ++ rest) = Some ({| d_rev := sid_rev s; d_auth := sid_auth s; d_subs := sid_subs s |}, rest)
+  /\ len (sid_bytes s) = 8 + 4 * len (sid_subs s).
+Proof. exact (fun s rest H => conj (parse_sid_app s rest H) (len_sid_bytes s)). Qed.
+Print Assumptions C08_sid_layout.
+
+Example C08_layout_hyp : wf_sid {| sid_rev := 1; sid_auth := 5; sid_subs := [21; 4151808797; 3430561092; 2843464588; 1104] |} = true
+  /\ wf_sid {| sid_rev := 9; sid_auth := 2 ^ 48 - 1; sid_subs := repeat (2 ^ 32 - 1) 15 |} = true.
+Proof. split; reflexivity. Qed.
+
+(* distinct SIDs give distinct SID bytes and distinct target SDs *)
+Theorem C08_injective : forall s1 s2, wf_sid s1 = true -> wf_sid s2 = true ->
+  (sid_bytes s1 = sid_bytes s2 -> s1 = s2) /\ (target_sd s1 = target_sd s2 -> s1 = s2).
+Proof. exact (fun s1 s2 H1 H2 => conj (sid_bytes_inj s1 s2 H1 H2) (target_sd_inj s1 s2 H1 H2)). Qed.
+Print Assumptions C08_injective.
+
+(* the canonical string of every SID of the domain is accepted and parses back to it *)
+Theorem C08_parse_print : forall s, wf_sid s = true -> sid_parse (sid_print s) = Ok s.
+Proof. exact parse_print. Qed.
+Print Assumptions C08_parse_print.
+
+(* the recogniser accepts exactly the grammar S-d-d+(-d+){1,15} over ASCII digits, whole string *)
+Theorem C08_grammar : forall str, sid_match str = true <->
+  exists (r : Z) (a : pystr) (subs : list pystr),
+    is_digit r = true /\ digit_str a = true /\ (1 <= length subs <= 15)%nat /\ forallb digit_str subs = true /\
+    str = [83; 45; r; 45] ++ a ++ concat (map (cons 45) subs).
+Proof. exact sid_match_iff. Qed.
+Print Assumptions C08_grammar.
+
+(* Every rejection is ValueError (for sid_to_bytes and for get_target_sd). Every accepted string is in the grammar, its
+   numbers are in range, the result carries exactly the values of its parts (so zero-padded parts denote the same SID), the
+   result is in the domain of C08_layout, and its canonical string parses to the same SID. *)
+Theorem C08_rejects : forall str,
+  (forall e, sid_parse str = Raise e -> e = ValueError) /\
+  (forall e, get_target_sd str = Raise e -> e = ValueError) /\
+  (forall s, sid_parse str = Ok s ->
+     (exists (r : Z) (a : pystr) (subs : list pystr),
+        str = [83; 45; r; 45] ++ a ++ concat (map (cons 45) subs) /\
+        is_digit r = true /\ digit_str a = true /\ (1 <= length subs <= 15)%nat /\ forallb digit_str subs = true /\
+        sid_rev s = r - 48 /\ sid_auth s = dec_val 0 a /\ sid_subs s = map (dec_val 0) subs /\
+        dec_val 0 a < 2 ^ 48 /\ forallb (fun p => dec_val 0 p <? 2 ^ 32) subs = true)
+     /\ wf_sid s = true /\ sid_parse (sid_print s) = Ok s).
+Proof.
+  exact (fun str => conj (sid_parse_raises str) (conj (get_target_sd_raises str)
+    (fun s H => conj (sid_parse_accepts str s H) (conj (sid_parse_wf str s H) (parse_print s (sid_parse_wf str s H)))))).
+Qed.
+Print Assumptions C08_rejects.
+
+(* conversely every string of the grammar whose numbers are in range is accepted: leading zeros are NOT rejected
+   (Windows accepts them too) *)
+Theorem C08_accepts : forall (r : Z) (a : pystr) (subs : list pystr),
+  is_digit r = true -> digit_str a = true -> (1 <= length subs <= 15)%nat -> forallb digit_str subs = true ->
+  dec_val 0 a < 2 ^ 48 -> forallb (fun p => dec_val 0 p <? 2 ^ 32) subs = true ->
+  sid_parse ([83; 45; r; 45] ++ a ++ concat (map (cons 45) subs)) =
+    Ok {| sid_rev := r - 48; sid_auth := dec_val 0 a; sid_subs := map (dec_val 0) subs |}.
+Proof. exact sid_parse_complete. Qed.
+Print Assumptions C08_accepts.
+
+(* ---- the property's near-miss list ----------------------------------------------------------------------------------- *)
+(* "S-1-5": no sub-authority *)
+Example C08_ex_n0 : sid_parse [83; 45; 49; 45; 53] = Raise ValueError /\ get_target_sd [83; 45; 49; 45; 53] = Raise ValueError.
+Proof. split; vm_compute; reflexivity. Qed.
+
+(* "S-1-5-1-2-...-16": sixteen sub-authorities *)
+Example C08_ex_n16 : sid_parse [83; 45; 49; 45; 53; 45; 49; 45; 50; 45; 51; 45; 52; 45; 53; 45; 54; 45; 55; 45; 56; 45; 57; 45; 49; 48; 45; 49; 49; 45; 49; 50; 45; 49; 51; 45; 49; 52; 45; 49; 53; 45; 49; 54] = Raise ValueError /\ get_target_sd [83; 45; 49; 45; 53; 45; 49; 45; 50; 45; 51; 45; 52; 45; 53; 45; 54; 45; 55; 45; 56; 45; 57; 45; 49; 48; 45; 49; 49; 45; 49; 50; 45; 49; 51; 45; 49; 52; 45; 49; 53; 45; 49; 54] = Raise ValueError.
+Proof. split; vm_compute; reflexivity. Qed.
+
+(* "S-1-5-4294967296": sub-authority 2^32 (was OverflowError) *)
+Example C08_ex_sub_2_32 : sid_parse [83; 45; 49; 45; 53; 45; 52; 50; 57; 52; 57; 54; 55; 50; 57; 54] = Raise ValueError /\ get_target_sd [83; 45; 49; 45; 53; 45; 52; 50; 57; 52; 57; 54; 55; 50; 57; 54] = Raise ValueError.
+Proof. split; vm_compute; reflexivity. Qed.
+
+(* "S-1-281474976710656-1": authority 2^48 (was silently truncated to 0) *)
+Example C08_ex_auth_2_48 : sid_parse [83; 45; 49; 45; 50; 56; 49; 52; 55; 52; 57; 55; 54; 55; 49; 48; 54; 53; 54; 45; 49] = Raise ValueError /\ get_target_sd [83; 45; 49; 45; 50; 56; 49; 52; 55; 52; 57; 55; 54; 55; 49; 48; 54; 53; 54; 45; 49] = Raise ValueError.
+Proof. split; vm_compute; reflexivity. Qed.
+
+(* "S-1-18446744073709551616-1": authority 2^64 (was OverflowError) *)
+Example C08_ex_auth_2_64 : sid_parse [83; 45; 49; 45; 49; 56; 52; 52; 54; 55; 52; 52; 48; 55; 51; 55; 48; 57; 53; 53; 49; 54; 49; 54; 45; 49] = Raise ValueError /\ get_target_sd [83; 45; 49; 45; 49; 56; 52; 52; 54; 55; 52; 52; 48; 55; 51; 55; 48; 57; 53; 53; 49; 54; 49; 54; 45; 49] = Raise ValueError.
+Proof. split; vm_compute; reflexivity. Qed.
+
+(* "S-1-5-18446744073709551616": sub-authority 2^64 *)
+Example C08_ex_sub_2_64 : sid_parse [83; 45; 49; 45; 53; 45; 49; 56; 52; 52; 54; 55; 52; 52; 48; 55; 51; 55; 48; 57; 53; 53; 49; 54; 49; 54] = Raise ValueError /\ get_target_sd [83; 45; 49; 45; 53; 45; 49; 56; 52; 52; 54; 55; 52; 52; 48; 55; 51; 55; 48; 57; 53; 53; 49; 54; 49; 54] = Raise ValueError.
+Proof. split; vm_compute; reflexivity. Qed.
+
+(* "S-1-5-18\n": trailing newline (was accepted as S-1-5-18) *)
+Example C08_ex_newline : sid_parse [83; 45; 49; 45; 53; 45; 49; 56; 10] = Raise ValueError /\ get_target_sd [83; 45; 49; 45; 53; 45; 49; 56; 10] = Raise ValueError.
+Proof. split; vm_compute; reflexivity. Qed.
+
+(* "S-1-5-" U+0661 U+0662: Arabic-Indic digits (was accepted as S-1-5-12) *)
+Example C08_ex_arabic_indic : sid_parse [83; 45; 49; 45; 53; 45; 1633; 1634] = Raise ValueError /\ get_target_sd [83; 45; 49; 45; 53; 45; 1633; 1634] = Raise ValueError.
+Proof. split; vm_compute; reflexivity. Qed.
+
+(* "S-" U+FF11 "-5-18": fullwidth digit as revision *)
+Example C08_ex_fullwidth_rev : sid_parse [83; 45; 65297; 45; 53; 45; 49; 56] = Raise ValueError /\ get_target_sd [83; 45; 65297; 45; 53; 45; 49; 56] = Raise ValueError.
+Proof. split; vm_compute; reflexivity. Qed.
+
+(* "S-1-5-+18": sign *)
+Example C08_ex_plus : sid_parse [83; 45; 49; 45; 53; 45; 43; 49; 56] = Raise ValueError /\ get_target_sd [83; 45; 49; 45; 53; 45; 43; 49; 56] = Raise ValueError.
+Proof. split; vm_compute; reflexivity. Qed.
+
+(* "S-1-5--18": sign / empty part *)
+Example C08_ex_minus : sid_parse [83; 45; 49; 45; 53; 45; 45; 49; 56] = Raise ValueError /\ get_target_sd [83; 45; 49; 45; 53; 45; 45; 49; 56] = Raise ValueError.
+Proof. split; vm_compute; reflexivity. Qed.
+
+(* "S-1-5- 18": blank inside *)
+Example C08_ex_blank_inner : sid_parse [83; 45; 49; 45; 53; 45; 32; 49; 56] = Raise ValueError /\ get_target_sd [83; 45; 49; 45; 53; 45; 32; 49; 56] = Raise ValueError.
+Proof. split; vm_compute; reflexivity. Qed.
+
+(* " S-1-5-18": leading blank *)
+Example C08_ex_blank_lead : sid_parse [32; 83; 45; 49; 45; 53; 45; 49; 56] = Raise ValueError /\ get_target_sd [32; 83; 45; 49; 45; 53; 45; 49; 56] = Raise ValueError.
+Proof. split; vm_compute; reflexivity. Qed.
+
+(* "S-1-5-18 ": trailing blank *)
+Example C08_ex_blank_trail : sid_parse [83; 45; 49; 45; 53; 45; 49; 56; 32] = Raise ValueError /\ get_target_sd [83; 45; 49; 45; 53; 45; 49; 56; 32] = Raise ValueError.
+Proof. split; vm_compute; reflexivity. Qed.
+
+(* "S-1-5-": empty last part *)
+Example C08_ex_empty_last : sid_parse [83; 45; 49; 45; 53; 45] = Raise ValueError /\ get_target_sd [83; 45; 49; 45; 53; 45] = Raise ValueError.
+Proof. split; vm_compute; reflexivity. Qed.
+
+(* "S-1--18": empty authority *)
+Example C08_ex_empty_auth : sid_parse [83; 45; 49; 45; 45; 49; 56] = Raise ValueError /\ get_target_sd [83; 45; 49; 45; 45; 49; 56] = Raise ValueError.
+Proof. split; vm_compute; reflexivity. Qed.
+
+(* "S--5-18": empty revision *)
+Example C08_ex_empty_rev : sid_parse [83; 45; 45; 53; 45; 49; 56] = Raise ValueError /\ get_target_sd [83; 45; 45; 53; 45; 49; 56] = Raise ValueError.
+Proof. split; vm_compute; reflexivity. Qed.
+
+(* "S-10-5-18": two-digit revision *)
+Example C08_ex_rev2 : sid_parse [83; 45; 49; 48; 45; 53; 45; 49; 56] = Raise ValueError /\ get_target_sd [83; 45; 49; 48; 45; 53; 45; 49; 56] = Raise ValueError.
+Proof. split; vm_compute; reflexivity. Qed.
+
+(* "s-1-5-18": lower-case prefix *)
+Example C08_ex_lower : sid_parse [115; 45; 49; 45; 53; 45; 49; 56] = Raise ValueError /\ get_target_sd [115; 45; 49; 45; 53; 45; 49; 56] = Raise ValueError.
+Proof. split; vm_compute; reflexivity. Qed.
+
+(* the empty string *)
+Example C08_ex_empty : sid_parse [] = Raise ValueError /\ get_target_sd [] = Raise ValueError.
+Proof. split; vm_compute; reflexivity. Qed.
+
+(* leading zeros are accepted, as Windows does, and denote the same SID: "S-1-05-018" *)
+Example C08_ex_leading_zeros : sid_parse [83; 45; 49; 45; 48; 53; 45; 48; 49; 56] = Ok {| sid_rev := 1; sid_auth := 5; sid_subs := [18] |}
+  /\ sid_parse [83; 45; 49; 45; 48; 53; 45; 48; 49; 56] = sid_parse [83; 45; 49; 45; 53; 45; 49; 56] /\ get_target_sd [83; 45; 49; 45; 48; 53; 45; 48; 49; 56] = get_target_sd [83; 45; 49; 45; 53; 45; 49; 56].
+Proof. repeat split; vm_compute; reflexivity. Qed.
+
+(* the largest SID of the property's domain is accepted: S-9-(2^48-1)-(2^32-1) x 15 *)
+Example C08_ex_max : sid_parse [83; 45; 57; 45; 50; 56; 49; 52; 55; 52; 57; 55; 54; 55; 49; 48; 54; 53; 53; 45; 52; 50; 57; 52; 57; 54; 55; 50; 57; 53; 45; 52; 50; 57; 52; 57; 54; 55; 50; 57; 53; 45; 52; 50; 57; 52; 57; 54; 55; 50; 57; 53; 45; 52; 50; 57; 52; 57; 54; 55; 50; 57; 53; 45; 52; 50; 57; 52; 57; 54; 55; 50; 57; 53; 45; 52; 50; 57; 52; 57; 54; 55; 50; 57; 53; 45; 52; 50; 57; 52; 57; 54; 55; 50; 57; 53; 45; 52; 50; 57; 52; 57; 54; 55; 50; 57; 53; 45; 52; 50; 57; 52; 57; 54; 55; 50; 57; 53; 45; 52; 50; 57; 52; 57; 54; 55; 50; 57; 53; 45; 52; 50; 57; 52; 57; 54; 55; 50; 57; 53; 45; 52; 50; 57; 52; 57; 54; 55; 50; 57; 53; 45; 52; 50; 57; 52; 57; 54; 55; 50; 57; 53; 45; 52; 50; 57; 52; 57; 54; 55; 50; 57; 53; 45; 52; 50; 57; 52; 57; 54; 55; 50; 57; 53] = Ok {| sid_rev := 9; sid_auth := 2 ^ 48 - 1; sid_subs := repeat (2 ^ 32 - 1) 15 |}.
+Proof. vm_compute; reflexivity. Qed.
